@@ -298,8 +298,8 @@ theorem tokLoop_fence_step (cfg : Cfg) (hty : cfg.types = markdownTypes) (g : Na
 /-- four spaces, then `t` -/
 abbrev ind4 (t : Str) : Str := ' ' :: ' ' :: ' ' :: ' ' :: t
 
-theorem ind4_blockCodeStart (t : Str) : blockCodeStart (ind4 t) = true := by
-  simp [blockCodeStart, replaceTab1, replaceFirst, startsWith]
+theorem ind4_blockCodeStart (t : Str) (hnb : isBlank (ind4 t) = false) : blockCodeStart (ind4 t) = true := by
+  simp [blockCodeStart, hnb, replaceTab1, replaceFirst, startsWith]
 
 theorem ind4_strip (t : Str) : blockCodeStrip (ind4 t) 0 = t := by
   simp [blockCodeStrip]
@@ -333,7 +333,7 @@ theorem blockCodeLoop_run (post : List Line) (start : Nat) :
     obtain ⟨hnb, t, ht⟩ := h x (by simp)
     have ih := blockCodeLoop_run post start cs (pre ++ [x]) (x.s.drop 4 :: buf) fuel (fun y hy => h y (List.mem_cons_of_mem _ hy))
     have e : fuel + (x :: cs).length = (fuel + cs.length) + 1 := by simp; omega
-    have hs : blockCodeStart x.s = true := by rw [ht]; exact ind4_blockCodeStart t
+    have hs : blockCodeStart x.s = true := by rw [ht]; exact ind4_blockCodeStart t (by rw [← ht]; exact hnb)
     have hst : blockCodeStrip x.s 0 = x.s.drop 4 := by rw [ht, ind4_strip]; rfl
     rw [e, List.cons_append]
     simp only [blockCodeLoop, peek_at, hnb, hs, hst, Bool.false_eq_true, if_false, Bool.not_true, fw_next]
@@ -378,7 +378,7 @@ theorem tokLoop_icode_step (cfg : Cfg) (hty : cfg.types = markdownTypes) (g : Na
     have : l.s.all ws = false := hnb
     simp only [Scan.blankLine, this, Bool.false_and]
   have f3 : htmlBlockStart l.s = .ok none := by rw [ht]; exact ind4_html t
-  have f4 : blockCodeStart l.s = true := by rw [ht]; exact ind4_blockCodeStart t
+  have f4 : blockCodeStart l.s = true := by rw [ht]; exact ind4_blockCodeStart t (by rw [← ht]; exact hnb)
   have hrd := readBlockCode_run (l :: cs) pre post start h hp
   have e : g + 5 = ((((g + 1) + 1) + 1) + 1) + 1 := by omega
   rw [e]
